@@ -62,6 +62,40 @@ fn encoded_objective(t: &Tableau, x: &[f64]) -> f64 {
     -t.current_value() + t.c_vec().iter().zip(x).map(|(c, v)| c * v).sum::<f64>()
 }
 
+/// Compares the tableau after a pivot on (t, h) with the Gauss-Jordan image of the tableau before it.
+/// Tolerance: 1e-9 of the magnitudes that take part in the entry, far above rounding and far below any
+/// coefficient a model can carry.
+fn pivot_arithmetic(before: &Tableau, after: &Tableau, t: usize, h: usize) -> Option<String> {
+    let a = before.a_matrix();
+    let p = a[t][h];
+    let close = |got: f64, x: f64, y: f64| -> bool {
+        // expected = x - y
+        (got - (x - y)).abs() <= 1e-9 * (x.abs() + y.abs()) + 1e-300
+    };
+    for i in 0..a.len() {
+        for j in 0..a[i].len() {
+            let (x, y) = if i == t { (a[t][j] / p, 0.0) } else { (a[i][j], a[i][h] / p * a[t][j]) };
+            if !close(after.a_matrix()[i][j], x, y) {
+                return Some(format!("entry [{i}][{j}] is {} where the elimination gives {}", after.a_matrix()[i][j], x - y));
+            }
+        }
+        let (x, y) = if i == t { (before.b_vec()[t] / p, 0.0) } else { (before.b_vec()[i], a[i][h] / p * before.b_vec()[t]) };
+        if !close(after.b_vec()[i], x, y) {
+            return Some(format!("right-hand side of row {i} is {} where the elimination gives {}", after.b_vec()[i], x - y));
+        }
+    }
+    for j in 0..before.c_vec().len() {
+        let (x, y) = (before.c_vec()[j], before.c_vec()[h] / p * a[t][j]);
+        if !close(after.c_vec()[j], x, y) {
+            return Some(format!("reduced cost of column {j} is {} where the elimination gives {}", after.c_vec()[j], x - y));
+        }
+    }
+    if after.in_basis().get(t) != Some(&h) || (0..a.len()).any(|i| i != t && after.in_basis()[i] != before.in_basis()[i]) {
+        return Some(format!("basis {:?} became {:?}", before.in_basis(), after.in_basis()));
+    }
+    None
+}
+
 #[derive(Debug)]
 pub struct HistoryFinding {
     pub sig: String,
@@ -72,7 +106,7 @@ pub struct HistoryFinding {
 }
 
 /// Checks one run (a maximal sequence of events on the same tableau) of the pivot loop.
-pub fn check_run(events: &[StepEvent], limit: usize) -> (Vec<HistoryFinding>, Vec<&'static str>) {
+pub fn check_run(events: &[StepEvent], limit: usize, converted_directly: bool) -> (Vec<HistoryFinding>, Vec<&'static str>) {
     let mut findings = vec![];
     let mut tags = vec![];
     let Some(first) = events.first() else { return (findings, tags) };
@@ -154,6 +188,23 @@ pub fn check_run(events: &[StepEvent], limit: usize) -> (Vec<HistoryFinding>, Ve
             }
         }
     };
+    // the start is canonical: the direct conversion divides a row by its own entry and uses columns that hold nothing
+    // else, so the basic columns of its tableau are unit columns to the last bit; a start that comes out of a first
+    // phase carries the rounding residue of that phase's pivots
+    let a_scale = t0.a_matrix().iter().flatten().fold(1.0f64, |s, v| s.max(v.abs()));
+    let start_tol = if converted_directly { 1e-12 } else { 1e-9 * a_scale };
+    'start: for (i, &bj) in t0.in_basis().iter().enumerate() {
+        if bj >= n {
+            break;
+        }
+        for r in 0..m {
+            let want = if r == i { 1.0 } else { 0.0 };
+            if (t0.a_matrix()[r][bj] - want).abs() > start_tol {
+                fail("start-tableau-not-canonical", format!("basic column {bj} holds {} in row {r} before the first step", t0.a_matrix()[r][bj]), 0);
+                break 'start;
+            }
+        }
+    }
     check_tableau(t0, 0, &mut fail);
     let mut pivots = 0usize;
     let mut bland_bases: Vec<Vec<usize>> = vec![];
@@ -210,6 +261,13 @@ pub fn check_run(events: &[StepEvent], limit: usize) -> (Vec<HistoryFinding>, Ve
                 }
                 if before.b_vec()[*leaving].abs() <= 1e-9 {
                     tags.push("degenerate-pivot");
+                }
+                // the pivot itself is plain arithmetic: every entry of the tableau after the step is the Gauss-Jordan
+                // image of the tableau before it (whatever the merits of the choice of pivot), entry by entry
+                if piv != 0.0 {
+                    if let Some(what) = pivot_arithmetic(before, &ev.after, *leaving, *entering) {
+                        fail("pivot-arithmetic-differs", format!("{what} at step {step} (column {entering} enters on row {leaving})"), step);
+                    }
                 }
                 check_tableau(&ev.after, step, &mut fail);
                 let obj = -ev.after.current_value();
@@ -498,6 +556,29 @@ fn classic_models() -> Vec<(LinearModel, &'static str)> {
     v
 }
 
+/// Degeneracy and magnitude strata on top of the generated model (shared with debug_case).
+fn perturb(spec: &mut crate::gen_lp::LmSpec, rng: &mut rand_chacha::ChaCha8Rng) {
+    if rng.gen_bool(0.3) {
+        // push towards degeneracy: many zero right-hand sides
+        for r in spec.rows.iter_mut() {
+            if rng.gen_bool(0.6) {
+                r.b = 0.0;
+            }
+        }
+    }
+    if rng.gen_range(0..10) == 0 && !spec.rows.is_empty() && !spec.vars.is_empty() {
+        // one coefficient of a few millionths (and sometimes a right-hand side of a few hundred thousand):
+        // entries that a tolerant zero test mistakes for nothing
+        let i = rng.gen_range(0..spec.rows.len());
+        let j = rng.gen_range(0..spec.vars.len());
+        spec.rows[i].a[j] = [4e-6, -2e-6, 8e-7, 5e-8][rng.gen_range(0..4)];
+        if rng.gen_bool(0.5) {
+            let k = rng.gen_range(0..spec.rows.len());
+            spec.rows[k].b = (spec.rows[k].b.abs() + 1.0) * 1e5;
+        }
+    }
+}
+
 pub fn run_history(lm: &LinearModel, step_by_step: bool) -> Option<(Vec<StepEvent>, String, crate::props::c13::XStd)> {
     let std = lm.clone().into_standard_form().ok()?;
     let xs = crate::props::c13::read_std(&std).ok()?;
@@ -542,14 +623,7 @@ impl Driver for C14 {
                     &mut rng,
                     &LpGenOpts { continuous_only: true, allow_satisfy: false, max_vars: 6, max_rows: 6, moderate_coeffs: out.unit % 8 == 1, ..Default::default() },
                 );
-                if rng.gen_bool(0.3) {
-                    // push towards degeneracy: many zero right-hand sides
-                    for r in spec.rows.iter_mut() {
-                        if rng.gen_bool(0.6) {
-                            r.b = 0.0;
-                        }
-                    }
-                }
+                perturb(&mut spec, &mut rng);
                 range = spec.coefficient_range();
                 (spec.to_rooc(), "g-lp", json!(spec))
             };
@@ -575,7 +649,7 @@ impl Driver for C14 {
             for (ri, run) in runs.iter().enumerate() {
                 let phase = if !run[0].avoided.is_empty() { "phase1" } else { "phase2" };
                 out.tag(&format!("run:{phase}"));
-                let (findings, tags) = check_run(run, 10_000);
+                let (findings, tags) = check_run(run, 10_000, ri == 0 && phase == "phase2");
                 for t in tags {
                     out.tag(t);
                 }
@@ -588,7 +662,11 @@ impl Driver for C14 {
                 }
                 if let Some(f) = all.first() {
                     bad = true;
-                    let sig = if range == "wide" {
+                    let arithmetic = f.sig == "pivot-arithmetic-differs" || f.sig == "start-tableau-not-canonical";
+                    let sig = if arithmetic {
+                        // not a matter of tolerances in the choice of the pivot: reported under its own name on every model
+                        format!("{phase}:{}", f.sig)
+                    } else if range == "wide" {
                         "tableau-simplex-unreliable-on-wide-coefficient-range(spread>=50 or min<=0.05)".to_string()
                     } else if f.magnitude.is_some_and(|m| m <= 2e-3) {
                         "tolerance-level-invariant-drift(<=2e-3 of the tableau scale)".to_string()
@@ -661,13 +739,7 @@ pub fn debug_case(seed: u64, unit: usize, case: usize, thorough: bool) {
             &mut rng,
             &LpGenOpts { continuous_only: true, allow_satisfy: false, max_vars: 6, max_rows: 6, moderate_coeffs: unit % 8 == 1, ..Default::default() },
         );
-        if rng.gen_bool(0.3) {
-            for r in spec.rows.iter_mut() {
-                if rng.gen_bool(0.6) {
-                    r.b = 0.0;
-                }
-            }
-        }
+        perturb(&mut spec, &mut rng);
         let sbs = rng.gen_bool(0.5);
         if c != case {
             continue;
